@@ -250,8 +250,16 @@ func (c *Ctx) AddCase(cs Case) {
 	if cs.Desc != nil {
 		c.Sample(cs.Desc)
 	}
+	if len(cs.Line) > maxModelLine {
+		// the list-based Lean model is quadratic in places: inputs of this size are left to the oracles (counted)
+		c.rep.Branches["model-skipped:input-beyond-"+fmt.Sprint(maxModelLine/2048)+"KiB"]++
+		return
+	}
 	c.Add(cs)
 }
+
+// maxModelLine: protocol lines (hex, two characters per byte) beyond this length are not sent to the model
+const maxModelLine = 400 * 1024
 
 type Suite struct {
 	Name     string
